@@ -11,7 +11,7 @@ Request:  `crash  run  <history>  <k|-|@i.n>`   (k = kill after k engine calls; 
      `N<mkDb><mkSchema>.<s>` connect(database 0, schema s) · `T<t>.<cmt|->.<len|->` CREATE TABLE · `D<t>` DROP TABLE ·
      `M<t>.<c>` COMMENT ON · `S<s>` CREATE SCHEMA · `V<v>` CREATE VIEW · `B<d>` CREATE DATABASE ·
      `i<t>.<k>.<v>` / `u<t>.<k>.<v>` / `d<t>.<k>` DML · `G<t>.<k1>.<v1>.<k2>.<v2>…` MERGE with those source rows ·
-     `q` SELECT · `b` / `c` / `r` · `x` COMMIT rejected by a commit-time conflict
+     `q` SELECT · `b` / `c` / `r` · `x` COMMIT rejected by a commit-time conflict · `E` end of a `with conn:` block
 Reply:    `calls=<per statement: string over q w b c r, statements separated by |>  total=<n>  impl=<dump>
            before=<dump>  after=<dump>  finding=<key|->  stmt=<index|->  j=<calls into it|->`
   dump   := `<files>/<schemas>/<tables>/<views>`; tables `+`-separated `id:cmt:len:k.v,k.v`
@@ -53,6 +53,7 @@ def parseStmt (s : String) : Option Stmt :=
   | 'c' => some .commit
   | 'r' => some .rollback
   | 'x' => some .commitConflict
+  | 'E' => some .connExit
   | _ => none
 
 def encCall : Call → String
